@@ -11,10 +11,10 @@ let load file =
   (try while true do
     let l = input_line ic in
     match split_ws l with
-    | ["n"; p; "d"] -> nodes := (bytes_of_hex p, NDir) :: !nodes
-    | ["n"; p; "f"; id] -> nodes := (bytes_of_hex p, NReg (n_of_int (int_of_string id))) :: !nodes
-    | ["n"; p; "l"; t] -> nodes := (bytes_of_hex p, NLink (bytes_of_hex t)) :: !nodes
-    | ["n"; p; "o"; m] -> nodes := (bytes_of_hex p, NOther (n_of_int (int_of_string m))) :: !nodes
+    | ["n"; p; "d"] -> nodes := (List.rev (bytes_of_hex p), NDir) :: !nodes
+    | ["n"; p; "f"; id] -> nodes := (List.rev (bytes_of_hex p), NReg (n_of_int (int_of_string id))) :: !nodes
+    | ["n"; p; "l"; t] -> nodes := (List.rev (bytes_of_hex p), NLink (bytes_of_hex t)) :: !nodes
+    | ["n"; p; "o"; m] -> nodes := (List.rev (bytes_of_hex p), NOther (n_of_int (int_of_string m))) :: !nodes
     | "c" :: rest -> cl := rest :: !cl
     | _ -> ()
   done with End_of_file -> ());
